@@ -27,7 +27,12 @@ CONNECTION WITH THE USE OR PERFORMANCE OF THIS SOFTWARE.
 // Parameters for ring buffer, used for storing history.  This acts
 // as the dictionary for copy operations.
 
+#if defined(LHASA_VERIF) && defined(LHASA_VERIF_RING_BUFFER_SIZE)
+/* verification hook: scaled history window (same ring arithmetic) */
+#define RING_BUFFER_SIZE LHASA_VERIF_RING_BUFFER_SIZE
+#else
 #define RING_BUFFER_SIZE 4096
+#endif
 #define START_OFFSET 18
 
 // Threshold offset.  In the copy operation, the copy length is a 4-bit
